@@ -73,12 +73,17 @@ class VClock:
 
     def __init__(self):
         self.now = self.START
+        self.tick = 0.0
         self.installed = False
         self.swallowed = _SwallowRecorder()
         self.steps = 0
 
     def time(self):
-        return self.now
+        # tick: a clock that moves while the code runs - every reading takes this long (0: time stands still between tasks)
+        t = self.now
+        if self.tick:
+            self.now = t + self.tick
+        return t
 
     def install(self):
         if self.installed:
@@ -109,6 +114,7 @@ class VClock:
         self.now = self.START if start is None else start
         self.steps = 0
         self.settle_extra = 0.0
+        self.tick = 0.0
         return leftover
 
     # ------------------------------------------------------------------
